@@ -13,7 +13,7 @@ CFG = dict(
                'harness (the theorems hold for every normalize that keeps vector length). Graph membership is observed through exhaustive search '
                '(k > len, ef = 4096), which relies on hnsw_rs returning every node of a small graph. The Gallina model is hand-written; agreement with the Rust code is checked, not proved.',
     technique='Coq proof (refinement of the index state machine to an abstract index, induction over histories) + per-run differential correspondence',
-    bin='c25', n_quick=300, n_thorough=6000,
+    bin='c25', n_quick=300, n_thorough=1500,
     corr_name='Model/Hnsw.v (state machine) vs HnswIndex',
     rule='7 hand-written histories (witnesses of the four repaired defects, the 30 % threshold, dimension reset) then random histories of 1-40 operations over 2-10 '
          'identifiers (small or > 2^40), dims 1-4, all four metrics, m/ef variations: insert 45 %, delete 20 %, delete+re-insert 7 %, rebuild 7 %, save/load 10 %, '
